@@ -60,7 +60,7 @@ def gen_case(rng, kind):
         mc = np.array([1.0, 1.0, 1.5, float(rng.choice([2.0, 4.0, 3.0])), 1.5, 1.0, 0.5])
         sd = np.full(7, float(rng.choice([0.25, 0.5, 1.0])))
         (eps, _th) = [(0.25, 3), (0.2, 2.5), (0.15, 2), (0.1, 1.78), (0.05, 1.58)][int(np.searchsorted(EDGES, f0x, side="right"))]
-        fn_std = float(rng.choice([eps * f0x, np.nextafter(eps * f0x, 0), np.nextafter(eps * f0x, 10)]))
+        fn_std = float(rng.choice([eps * f0x, np.nextafter(eps * f0x, 0), np.nextafter(eps * f0x, 10), 0.0]))   # 0.0: all windows peak on one sample
         rng_ = (None, None)
     return dict(kind=kind, lw=lw, nw=nw, freq=freq.tolist(), mc=mc.tolist(), sd=sd.tolist(), fn_std=fn_std,
                 range=list(rng_))
